@@ -41,7 +41,7 @@ class Contract(object):
     def __init__(self, key, params=None, types=None, env=None, requires=None, ensures=None, raises=None,
                  xensures=None, modifies=None, ghost=None, loops=None, inline=False, pure=False,
                  result_type=None, fresh_result=None, assumes=None, note=None, opaque_calls=None,
-                 covers=None, ghost_init=None, callbacks=None, preserves=None, protected=None, params_rename=None, ghost_modifies=None, distinct=None):
+                 covers=None, ghost_init=None, callbacks=None, preserves=None, protected=None, params_rename=None, ghost_modifies=None, distinct=None, covers_exit=None, ghost_post=None):
         self.key = key
         self.params = params              # for externals: list of parameter names (defaults None)
         self.types = types or {}          # param name -> 'str' | 'int' | 'bool' | 'float' | 'dict' | 'list' | 'obj' | 'any' | 'json'
@@ -67,6 +67,9 @@ class Contract(object):
         self.covers = _clauses(covers)    # must be reachable / satisfiable at entry (vacuity guards)
         self.ghost_init = ghost_init or {}
         self.callbacks = callbacks or []
+        # ghost snapshot == heap at return, under a condition:  {ghost: cond text}
+        self.ghost_post = {k: ast.parse(v, mode="eval").body for k, v in (ghost_post or {}).items()}
+        self.covers_exit = _clauses(covers_exit)
         self.distinct = [ast.parse(m, mode="eval").body for m in (distinct or [])]
         self.ghost_modifies = ghost_modifies   # None: any ghost may change; list: only these (plus `ghost=` keys)
         self.preserves = (preserves if preserves == "PROTECTED" else
